@@ -22,6 +22,11 @@ DEFAULT_SEED = 20261003
 
 _BOOTSTRAPPED = False
 _SCRATCH = None
+_ORIG_CWD = os.getcwd()  # bootstrap() changes directory; relative VERIF_*_DIR values mean "relative to where I was started"
+
+
+def _abs_dir(p):
+    return p if os.path.isabs(p) else os.path.join(_ORIG_CWD, p)
 
 
 class HarnessError(Exception):
@@ -482,7 +487,7 @@ def _json_default(o):
 
 
 def write_evidence(prop, tier, seed, coverage, wall_s, violations, assumptions):
-    path = os.path.join(os.environ.get("VERIF_EVIDENCE_DIR") or os.path.join(VERIF, "evidence"), "%s.json" % prop)
+    path = os.path.join(_abs_dir(os.environ.get("VERIF_EVIDENCE_DIR") or os.path.join(VERIF, "evidence")), "%s.json" % prop)
     ev = {
         "property_id": prop,
         "tier": tier,
@@ -500,6 +505,6 @@ def write_evidence(prop, tier, seed, coverage, wall_s, violations, assumptions):
 
 
 def replay_path(prop, seed, tag=""):
-    d = os.environ.get("VERIF_REPLAY_DIR") or os.path.join(VERIF, "replays")
+    d = _abs_dir(os.environ.get("VERIF_REPLAY_DIR") or os.path.join(VERIF, "replays"))
     os.makedirs(d, exist_ok=True)
     return os.path.join(d, "%s-%s%s.json" % (prop, seed, tag))
